@@ -4,6 +4,8 @@ CONSTANTS
   CanonOf <- ScalarCanonAll
   PyOf <- ScalarPy
   KeyMode = "exact"
+  Lossy = "reject"
+  WrapOf <- NoWrap
   MaxOps = 8
   MaxPickles = 1
   Label = "scalar"
